@@ -309,6 +309,11 @@ func handleHRANDFIELD(params internal.HandlerFuncParams) ([]byte, error) {
 		return []byte("*0\r\n"), nil
 	}
 
+	if len(hash) == 0 {
+		// Nothing to select from (a negative count would otherwise draw from an empty list).
+		return []byte("*0\r\n"), nil
+	}
+
 	// If count is the >= hash length, then return the entire hash
 	if count >= len(hash) {
 		res := fmt.Sprintf("*%d\r\n", len(hash))
